@@ -84,6 +84,11 @@ Definition decide (use_auth : bool) (admin : token) (st : list token) (wrapped :
     else Reached
   end.
 
+(* A token lookup that FAILS (storage error in GetTokenByValue): TokenService.GetToken returns the error, the
+   middleware maps every error to ErrInvalidAccessToken.  The admin token is compared before the lookup, so the
+   request is decided as if no token were issued: [visible false st = []]. *)
+Definition visible (store_ok : bool) (st : list token) : list token := if store_ok then st else [].
+
 (* routes whose handler access/endpoints.go wraps with RequireAdmin *)
 Definition needs_admin (r : string * string) : bool :=
   let '(m, p) := r in
